@@ -104,8 +104,9 @@ def run(R, tier):
                  {'basis': 'custom'}, algebra=spec, first_pair=list(bad[0]))
     # expr_as_matrix (exploration): A . coefficients(x) = coefficients(y)
     forms = [('R >> x', lambda Rm, x: Rm >> x), ('R * x', lambda Rm, x: Rm * x), ('x * R', lambda Rm, x: x * Rm), ('R | x', lambda Rm, x: Rm | x),
-             ('R ^ x', lambda Rm, x: Rm ^ x), ('x.hodge()', lambda Rm, x: x.hodge()), ('R.cp(x)', lambda Rm, x: Rm.cp(x)), ('~x + R*x', lambda Rm, x: ~x + Rm * x)]
-    for it in range(10 if tier == 'quick' else 120):
+             ('R ^ x', lambda Rm, x: Rm ^ x), ('x.hodge()', lambda Rm, x: x.hodge()), ('R.cp(x)', lambda Rm, x: Rm.cp(x)), ('~x + R*x', lambda Rm, x: ~x + Rm * x),
+             ('0.5 * (R * x)', lambda Rm, x: 0.5 * (Rm * x)), ('(x * R) / 4', lambda Rm, x: (x * Rm) / 4)]   # non-integer entries from integer inputs
+    for it in range(16 if tier == 'quick' else 160):
         d = rng.choice((2, 3))
         alg = algs.make_impl({'sig': [rng.choice((1, 1, -1, 0)) for _ in range(d)]})
         name, f = rng.choice(forms)
